@@ -3,6 +3,8 @@
 //   * `Area for Triangle`: signed_area = (shoelace sum of the three sides v0->v1, v1->v2, v2->v0) / 2, unsigned_area = its
 //     absolute value; its sign is the sign of the shoelace sum (positive exactly for counter-clockwise vertices);
 //   * `get_linestring_area` = twice_signed_ring_area / 2 (the shoelace sum itself is proved in unit c05_ring).
+//   * lemmas: the ring of Triangle::to_polygon / Rect::to_polygon has, as its textbook shoelace sum, exactly the sum the
+//     Triangle formula halves / twice the width x height that `Area for Rect` returns (areas equal those of the polygon form).
 // The scalar is the exact ring of prelude_exact (val: int), in which a quotient has no exact value: the postconditions
 // therefore name the quotient as `s / d` of a scalar s carrying the exact shoelace sum and a scalar d of value 2, and use
 // only the ASSUMED sign law of a division by a positive scalar (ax_div).
@@ -97,6 +99,38 @@ pub fn twice_signed_ring_area<T: CoordNum>(linestring: &LineString<T>) -> (r: T)
 //@entry
     proof { T::ax_obeys(); T::ax_ring(); T::ax_div(); }
 //@end
+
+// ------------------------------------------------------------------ "Rect and Triangle areas equal those of their polygon form"
+// (lemmas over the contracts: the ring of `to_polygon` - [v0, v1, v2, v0] resp. the five corners starting at (max.x, min.y);
+// those conversions are decided by the K-complete harnesses of C18 - has, as its textbook shoelace sum (the sum that unit
+// c05_ring proves `twice_signed_ring_area` computes), exactly the value the direct formulas above halve)
+pub open spec fn det2(ax: int, ay: int, bx: int, by: int) -> int { ax * by - ay * bx }
+/// (same definition as in unit c05_ring)
+pub open spec fn shoelace2<T: CoordNum>(s: Seq<Coord<T>>, k: int) -> int
+    decreases k
+{
+    if k <= 0 { 0 } else { shoelace2(s, k - 1) + det2(s[k - 1].x.val(), s[k - 1].y.val(), s[k].x.val(), s[k].y.val()) }
+}
+pub proof fn lemma_triangle_polygon_form<T: CoordNum>(t: Triangle<T>)
+    ensures shoelace2(seq![t.0, t.1, t.2, t.0], 3) == tri_twice(t),
+{
+    let s = seq![t.0, t.1, t.2, t.0];
+    reveal_with_fuel(shoelace2, 4);
+    assert(s[0] == t.0 && s[1] == t.1 && s[2] == t.2 && s[3] == t.0);
+}
+pub proof fn lemma_rect_polygon_form<T: CoordNum>(lo: Coord<T>, hi: Coord<T>)
+    ensures
+        // twice (width x height): the value `Area for Rect` (unit c05_exact) returns, doubled - counter-clockwise ring
+        shoelace2(seq![Coord { x: hi.x, y: lo.y }, hi, Coord { x: lo.x, y: hi.y }, lo, Coord { x: hi.x, y: lo.y }], 4)
+            == 2 * ((hi.x.val() - lo.x.val()) * (hi.y.val() - lo.y.val())),
+{
+    let s = seq![Coord { x: hi.x, y: lo.y }, hi, Coord { x: lo.x, y: hi.y }, lo, Coord { x: hi.x, y: lo.y }];
+    reveal_with_fuel(shoelace2, 5);
+    assert(s[0] == Coord { x: hi.x, y: lo.y } && s[1] == hi && s[2] == Coord { x: lo.x, y: hi.y } && s[3] == lo && s[4] == Coord { x: hi.x, y: lo.y });
+    let (a, b, c, d) = (lo.x.val(), lo.y.val(), hi.x.val(), hi.y.val());
+    assert(shoelace2(s, 4) == det2(c, b, c, d) + det2(c, d, a, d) + det2(a, d, a, b) + det2(a, b, c, b));
+    assert(det2(c, b, c, d) + det2(c, d, a, d) + det2(a, d, a, b) + det2(a, b, c, b) == 2 * ((c - a) * (d - b))) by(nonlinear_arith);
+}
 
 } // verus!
 fn main() {}
